@@ -6,6 +6,9 @@ package negvariants
 
 import (
 	"errors"
+	"fmt"
+	"os"
+	"runtime/debug"
 
 	"github.com/protolambda/zrnt/eth2/beacon/common"
 	"github.com/protolambda/zrnt/eth2/beacon/phase0"
@@ -45,6 +48,9 @@ func edited(edit bodyEdit) func(*chain.StateCtx, *chain.DepositTree, *common.Bea
 	return func(pre *chain.StateCtx, _ *chain.DepositTree, honest *common.BeaconBlockEnvelope) (out *common.BeaconBlockEnvelope, err error) {
 		defer func() {
 			if r := recover(); r != nil {
+				if os.Getenv("NEGV_DEBUG") != "" {
+					fmt.Fprintln(os.Stderr, "negvariants: edit panicked:", r, string(debug.Stack()))
+				}
 				out, err = nil, ErrNotApplicable
 			}
 		}()
@@ -56,9 +62,14 @@ func edited(edit bodyEdit) func(*chain.StateCtx, *chain.DepositTree, *common.Bea
 			return nil, err
 		}
 		env.BodyRoot = env.Body.HashTreeRoot(pre.Spec, tree.GetHashFn())
-		if root, err := chain.ComputeStateRoot(pre, env); err == nil {
-			env.StateRoot = root
-		}
+		// best effort: the library may reject - or panic on - the edited block while the root is computed; the
+		// variant is delivered all the same (with the honest root) and judged at the recorded call
+		func() {
+			defer func() { _ = recover() }()
+			if root, err := chain.ComputeStateRoot(pre, env); err == nil {
+				env.StateRoot = root
+			}
+		}()
 		chain.Reseal(pre, env, chain.SealOpts{})
 		return env, nil
 	}
@@ -200,7 +211,7 @@ func All() []Variant {
 		c, f := classOf(v.Name)
 		out = append(out, Variant{Name: v.Name, Class: c, MinFork: f, Make: v.Make})
 	}
-	return append(append(append(out, extensions()...), shapeVariants()...), slashabilityVariants()...)
+	return append(append(append(out, extensions()...), shapeVariants()...), append(slashabilityVariants(), overLimitVariants()...)...)
 }
 
 func hasPrefix(s, p string) bool { return len(s) >= len(p) && s[:len(p)] == p }
@@ -861,6 +872,106 @@ func ensureBLS(pre *chain.StateCtx, env *common.BeaconBlockEnvelope, ops *chain.
 	}
 	*ops.BLSChanges = append(*ops.BLSChanges, *c)
 	return nil
+}
+
+// overLimitVariants: one variant per list field of the block body, carrying MAX + 1 VALID, mutually independent
+// operations (distinct validators), so that ONLY the list limit - the bound of the SSZ list type - is exceeded.
+func overLimitVariants() []Variant {
+	lim := func(name string, min chain.Fork, edit bodyEdit) Variant {
+		return Variant{name, "limits", min, edited(edit)}
+	}
+	return []Variant{
+		lim("proposer-slashings-over-limit", chain.Phase0, func(pre *chain.StateCtx, env *common.BeaconBlockEnvelope, ops *chain.BodyOps) error {
+			n := int(pre.Spec.MAX_PROPOSER_SLASHINGS) + 1
+			who := healthyFromTop(pre, env, n, nil)
+			if !quiet(ops) || who == nil {
+				return ErrNotApplicable
+			}
+			for _, v := range who {
+				ps, err := pre.MakeProposerSlashing(chain.ProposerSlashingPlan{Proposer: v})
+				if err != nil {
+					return ErrNotApplicable
+				}
+				*ops.ProposerSlashings = append(*ops.ProposerSlashings, *ps)
+			}
+			return nil
+		}),
+		lim("attester-slashings-over-limit", chain.Phase0, func(pre *chain.StateCtx, env *common.BeaconBlockEnvelope, ops *chain.BodyOps) error {
+			n := int(pre.Spec.MAX_ATTESTER_SLASHINGS) + 1
+			who := healthyFromTop(pre, env, n, nil)
+			if !quiet(ops) || who == nil || len(pre.ActiveIndices()) < 2*n+4 {
+				return ErrNotApplicable
+			}
+			for _, v := range who {
+				as, err := pre.MakeAttesterSlashing(chain.AttesterSlashingPlan{Indices: []common.ValidatorIndex{v}})
+				if err != nil {
+					return ErrNotApplicable
+				}
+				*ops.AttesterSlashings = append(*ops.AttesterSlashings, *as)
+			}
+			return nil
+		}),
+		lim("voluntary-exits-over-limit", chain.Phase0, func(pre *chain.StateCtx, env *common.BeaconBlockEnvelope, ops *chain.BodyOps) error {
+			n := int(pre.Spec.MAX_VOLUNTARY_EXITS) + 1
+			who := healthyFromTop(pre, env, n, pre.CanExit)
+			if !quiet(ops) || who == nil || len(pre.ActiveIndices()) < n+8 {
+				return ErrNotApplicable
+			}
+			for _, v := range who {
+				e, err := pre.MakeExit(chain.ExitPlan{Validator: v})
+				if err != nil {
+					return ErrNotApplicable
+				}
+				*ops.VoluntaryExits = append(*ops.VoluntaryExits, *e)
+			}
+			return nil
+		}),
+		lim("deposits-over-limit", chain.Phase0, func(pre *chain.StateCtx, env *common.BeaconBlockEnvelope, ops *chain.BodyOps) error {
+			if uint64(len(*ops.Deposits)) != uint64(pre.Spec.MAX_DEPOSITS) {
+				return ErrNotApplicable
+			}
+			*ops.Deposits = append(*ops.Deposits, (*ops.Deposits)[len(*ops.Deposits)-1])
+			return nil
+		}),
+		lim("bls-changes-over-limit", chain.Capella, func(pre *chain.StateCtx, env *common.BeaconBlockEnvelope, ops *chain.BodyOps) error {
+			if ops.BLSChanges == nil || pre.Fork() < chain.Capella {
+				return ErrNotApplicable
+			}
+			n := int(pre.Spec.MAX_BLS_TO_EXECUTION_CHANGES) + 1
+			who := healthyFromTop(pre, env, n, pre.HasBLSCredentials)
+			if !quiet(ops) || who == nil {
+				return ErrNotApplicable
+			}
+			for _, v := range who {
+				c, err := pre.MakeBLSChange(chain.BLSChangePlan{Validator: v})
+				if err != nil {
+					return ErrNotApplicable
+				}
+				*ops.BLSChanges = append(*ops.BLSChanges, *c)
+			}
+			return nil
+		}),
+		lim("payload-transactions-over-limit", chain.Bellatrix, func(pre *chain.StateCtx, env *common.BeaconBlockEnvelope, ops *chain.BodyOps) error {
+			p := chain.PayloadOf(env.Body)
+			if p == nil || len(p.Transactions) == 0 {
+				return ErrNotApplicable
+			}
+			for uint64(len(p.Transactions)) <= uint64(pre.Spec.MAX_TRANSACTIONS_PER_PAYLOAD) {
+				p.Transactions = append(p.Transactions, append([]byte{0x02, byte(len(p.Transactions))}, p.Transactions[0][2:]...))
+			}
+			return chain.SetPayload(env.Body, p)
+		}),
+		lim("payload-extra-data-over-limit", chain.Bellatrix, func(pre *chain.StateCtx, env *common.BeaconBlockEnvelope, ops *chain.BodyOps) error {
+			p := chain.PayloadOf(env.Body)
+			if p == nil || len(p.Transactions) == 0 {
+				return ErrNotApplicable
+			}
+			for uint64(len(p.ExtraData)) <= uint64(pre.Spec.MAX_EXTRA_DATA_BYTES) {
+				p.ExtraData = append(p.ExtraData, byte('x'))
+			}
+			return chain.SetPayload(env.Body, p)
+		}),
+	}
 }
 
 func editWithdrawals(fn func(ws []common.Withdrawal) ([]common.Withdrawal, error)) bodyEdit {
